@@ -1,0 +1,23 @@
+//go:build verif
+
+// Contracts for the deductive verifier under /verif (comment-only file: it
+// adds no code; compiled only with -tags verif).
+package lifecycle
+
+// ---- C10 / C11: the cleanup goroutine of runPipeline (arch-v2) -------------------
+// Decision table taken from the property statement:
+//   still alive (stopped)        -> one terminal status write (system/user stopped), no recovery
+//   fatal cause                  -> Degraded with the cause, NO recovery
+//   server shutting down         -> SystemStopped, no recovery
+//   user asked to stop           -> UserStopped, no recovery
+//   otherwise (transient)        -> recoverPipeline once; nil: nothing else; error: Degraded
+//verif:def graceful() = result_of("(*Bool).Load@isGracefulShutdown", 0)
+//verif:def intentional() = result_of("(*Bool).Load@intentionalStop", 0)
+
+//verif:closure of (*Service).runPipeline calling (*Service).recoverPipeline (workersWg, rp, startupDone, s) (ret)
+//verif:call[recover-only-transient] (*Service).recoverPipeline requires err$1 != global("tomb.ErrStillAlive") && !is_fatal(err$1) && called("(*Bool).Load@isGracefulShutdown") && !graceful() && called("(*Bool).Load@intentionalStop") && !intentional() && !called("PipelineService.UpdateStatus")
+//verif:call[status-matches-cause] PipelineService.UpdateStatus requires (arg2 == StatusDegraded ==> is_fatal(err$1) || called("(*Service).recoverPipeline") && result_of("(*Service).recoverPipeline", 0) != nil) && (arg2 == StatusUserStopped ==> !graceful() || called("(*Bool).Load@intentionalStop") && intentional()) && arg2 != StatusRunning && arg2 != StatusRecovering
+//verif:call[record-result-before-unpublishing] csync.(*Map).Delete requires called("csync.(*Map).Set")
+//verif:ensures[recovered-run-is-left-alone] called("(*Service).recoverPipeline") && result_of("(*Service).recoverPipeline", 0) == nil ==> ret == nil && !called("csync.(*Map).Delete") && !called("PipelineService.UpdateStatus") && !called("(*Service).notify")
+//verif:ensures[one-terminal-write] count("PipelineService.UpdateStatus") <= 1
+//verif:ensures[recover-at-most-once] count("(*Service).recoverPipeline") <= 1
